@@ -31,7 +31,7 @@ ASSUMPTIONS = [
 CMDS = ["phase", "phase_ped", "phase_hp_lists", "genotype", "genotype_ped", "polyphase", "haplotag", "haplotagphase",
         "unphase", "stats", "compare", "split", "find_snv_candidates", "polyphase_pre", "polyphase_pre2", "polyphase_pre3",
         # option variants (the result must depend on files and options only, whatever the options are)
-        "split_largest", "compare_multi", "stats_gtf", "phase_distrust", "haplotag_regions", "find_snv_multi", "phase_lists_chr2", "stats_chroms_gz", "genotype_ped_cov", "compare_nosample"]
+        "split_largest", "compare_multi", "stats_gtf", "phase_distrust", "haplotag_regions", "find_snv_multi", "phase_lists_chr2", "stats_chroms_gz", "genotype_ped_cov", "compare_nosample", "phase_two_bams"]
 
 
 def design_mc(ctx):
@@ -178,6 +178,8 @@ def drive(sc):
             outs = ["out.vcf"]
         else:
             wd = _world(sc)
+            if cmd == "phase_two_bams":
+                wd["two_bams"] = True          # the reads spread over two alignment files (source ids 0 and 1 in command-line order)
             paths = PW.materialise(wd, d)
             names = sc["names"]
             # inputs derived once (not judged): a phased VCF, its compressed copy, tagged BAM, haplotag list
@@ -272,6 +274,8 @@ def drive(sc):
                 # do the same thing under every hash seed - the outcome (exit status, message, any output) is the result
                 "compare_nosample": (["compare", "--tsv-pairwise", "{out}/p.tsv", "--names", "a,b",
                                       os.path.join(d, "phased.vcf"), os.path.join(d, "phased2.vcf")], ["p.tsv", "stdout", "outcome"]),
+                "phase_two_bams": (["phase", "--reference", paths["ref"], "-o", "{out}/out.vcf", "--output-read-list", "{out}/reads.tsv",
+                                    paths["vcf"], paths["bam"], paths.get("bam2") or paths["bam"]], ["out.vcf", "reads.tsv"]),
                 "stats_chroms_gz": (["stats", "--tsv", "{out}/s.tsv", "--block-list", "{out}/b.tsv", "--gtf", "{out}/b.gtf",
                                      "--chromosome", paths["names"][-1], "--chromosome", paths["names"][0], "--sample", names[1],
                                      os.path.join(d, "phased_copy.vcf.gz")], ["s.tsv", "b.tsv", "b.gtf", "stdout"]),
